@@ -118,6 +118,132 @@ def opSpecC18 : List V → Option V
       | none => some (atom "ok")
   | _ => none
 
+/-! ### stateful run (`perms` dict + recorded generator calls), arbitrary enzymes, file-level checker -/
+
+/-- generator oracle from the calls recorded in the implementation run: the `k`-th recorded
+result; a missing record yields `[]`, which is no permutation of `n ≥ 2` elements — the run then
+differs visibly, and the returned call count exceeds the number of records -/
+def rngOf (draws : Array (List Nat)) : Nat → Nat → List Nat := fun k _ => (draws[k]?).getD []
+
+inductive Enz where
+  | cls (cut block : List Char)
+  | tbl (t : List (List Char × List Nat))
+
+def enz? : V → Option Enz
+  | V.list [V.atom "class", cut, block] => do
+      let c ← chars? cut
+      let b ← chars? block
+      some (Enz.cls c b)
+  | V.list [V.atom "table", t] => do
+      let t ← toList? (toPair? chars? (toList? toNat?)) t
+      some (Enz.tbl t)
+  | _ => none
+
+/-- `[m.end() for m in enzyme_regex.finditer(seq)]` -/
+def Enz.ends : Enz → List Char → List Nat
+  | Enz.cls c b => Mk.Decoys.matchEnds (classOf c) (classOf b) 0
+  | Enz.tbl t => fun s => (t.lookup s).getD []
+
+/-- the table covers every target and every site list is what a regex engine can produce
+(hypothesis `EndsOK` of the theorems) -/
+def Enz.covers (e : Enz) (ts : List Entry) : Option String :=
+  match e with
+  | Enz.cls _ _ => none
+  | Enz.tbl t =>
+    if !ts.all (fun x => (t.lookup x.2).isSome) then some "missing-sites"
+    else if !ts.all (fun x => Mk.Decoys.sitesOKb x.2.length (Mk.Decoys.cleavageSitesOf e.ends x.2)) then some "bad-sites"
+    else none
+
+def old? : V → Option (Option (List Char))
+  | V.atom "none" => some none
+  | V.list [t] => (chars? t).map some
+  | _ => none
+
+/-- `c18-run draws enz prefix reverse concat w old [file …]` → `[text calls draws_are_permutations]` -/
+def opRun : List V → Option V
+  | [d, e, pre, rev, con, w, old, files] => do
+      let draws ← toList? (toList? toNat?) d
+      let e ← enz? e
+      let pre ← chars? pre
+      let rev ← toBool? rev
+      let con ← toBool? con
+      let w ← toNat? w
+      let old ← old? old
+      let files ← toList? chars? files
+      -- a site table must cover the targets (a residue class needs no such check)
+      let bad : Option String := match e with
+        | Enz.cls _ _ => none
+        | Enz.tbl _ => (Mk.Decoys.parseFasta files).bind e.covers
+      match bad with
+      | some msg => some (atom msg)
+      | none =>
+        match Mk.Decoys.makeDecoysS rev (rngOf draws.toArray) pre e.ends con w old files with
+        | none => some (atom "reject-index")
+        | some (out, k) =>
+          some (V.list [ofChars out, ofNat k,
+            ofBool (draws.all (fun p => p.isPerm (List.range p.length)))])
+  | _ => none
+
+/-- `c18-run-default draws old [file …]`: every option at its default -/
+def opRunDefault : List V → Option V
+  | [d, old, files] => do
+      let draws ← toList? (toList? toNat?) d
+      let old ← old? old
+      let files ← toList? chars? files
+      match Mk.Decoys.makeDecoysDefault (rngOf draws.toArray) old files with
+      | none => some (atom "reject-index")
+      | some (out, k) => some (V.list [ofChars out, ofNat k])
+  | _ => none
+
+/-- first failing clause for one pair at explicit sites -/
+def seqClauseAt (sites : List Nat) (cls : Option (Char → Bool)) (reverse : Bool) (t d : List Char) : Option String :=
+  if !(d.length == t.length) then some "length" else
+  if !(d.isPerm t) then some "composition" else
+  if !((Mk.Decoys.pairs sites).all (fun p =>
+      (Mk.Decoys.slice d p.1 p.2).head? == (Mk.Decoys.slice t p.1 p.2).head? &&
+      (Mk.Decoys.slice d p.1 p.2).getLast? == (Mk.Decoys.slice t p.1 p.2).getLast?)) then some "termini" else
+  if !((Mk.Decoys.pairs sites).all (fun p => (Mk.Decoys.slice d p.1 p.2).isPerm (Mk.Decoys.slice t p.1 p.2)))
+    then some "peptide-composition" else
+  if reverse && !((Mk.Decoys.pairs sites).all (fun p =>
+      Mk.Decoys.interior (Mk.Decoys.slice d p.1 p.2) == (Mk.Decoys.interior (Mk.Decoys.slice t p.1 p.2)).reverse)) then some "reverse-interior" else
+  if !(Mk.Decoys.pepsOKAt sites reverse t d) then some "peptides" else
+  if (cls.map (fun cut => Mk.Decoys.cleavageSites cut Mk.Decoys.noBlock d != Mk.Decoys.cleavageSites cut Mk.Decoys.noBlock t)).getD false
+    then some "sites" else none
+
+/-- `spec-C18-file prefix enz reverse concat [[tname tseq] …] [[oname oseq] …]`: the proved
+file-level checker `fileOK` (`C18_make_decoys_any_rng(_class)`); the clause name is diagnostic -/
+def opSpecFile : List V → Option V
+  | [pre, e, rev, con, ts, os] => do
+      let pre ← chars? pre
+      let e ← enz? e
+      let rev ← toBool? rev
+      let con ← toBool? con
+      let ts ← entries? ts
+      let os ← entries? os
+      match e.covers ts with
+      | some msg => some (atom msg)
+      | none =>
+        let cls : Option (Char → Bool) := match e with
+          | Enz.cls c [] => some (classOf c)
+          | _ => none
+        let sitesOf := Mk.Decoys.cleavageSitesOf e.ends
+        if Mk.Decoys.fileOK pre sitesOf cls rev con ts os then some (atom "ok") else
+        let nT := if con then ts.length else 0
+        if os.length != nT + ts.length then some (atom "fail-count") else
+        if con && os.take nT != ts then some (atom "fail-targets-first") else
+        let ds := os.drop nT
+        if ds.map (·.1) != ts.map (fun t => pre ++ t.1) then some (atom "fail-name") else
+        match firstSome (List.zipWith (fun t d => seqClauseAt (sitesOf t.2) cls rev t.2 d.2) ts ds) with
+        | some c => some (atom ("fail-" ++ c))
+        | none => some (atom "fail-file")
+  | _ => none
+
+/-- `c18-defaults` → `[prefix cut width]` as the model has them -/
+def opDefaults : List V → Option V
+  | [] => some (V.list [ofChars Mk.Decoys.defaultPrefix,
+      ofChars ("ABCDEFGHIJKLMNOPQRSTUVWXYZ".toList.filter Mk.Decoys.defaultCut), ofNat Mk.Decoys.wrapWidth])
+  | _ => none
+
 end Mk.Ops.Decoys
 
 namespace Mk.Ops
@@ -125,6 +251,8 @@ open Mk V
 
 def decoysOps : List (String × (List V → Option V)) :=
   [("c18-mkdecoys", Decoys.opMkDecoys), ("c18-parse", Decoys.opFastaParse), ("c18-roundtrip", Decoys.opFastaRt),
-   ("c18-sites", Decoys.opSites18), ("spec-C18", Decoys.opSpecC18)]
+   ("c18-sites", Decoys.opSites18), ("spec-C18", Decoys.opSpecC18),
+   ("c18-run", Decoys.opRun), ("c18-run-default", Decoys.opRunDefault), ("spec-C18-file", Decoys.opSpecFile),
+   ("c18-defaults", Decoys.opDefaults)]
 
 end Mk.Ops
